@@ -1,1 +1,394 @@
-import Batchie.Model.Screen
+/-
+  C01 — Screen identifiers are a faithful, dense encoding of names and doses.
+
+  All statements are about the executable model `Batchie.Screen` (Model/Screen.lean), which the
+  correspondence harness `harness/c01.py` runs against `batchie.data.Screen(...)` on every check.
+  Lists, names, doses, arity and the control name are arbitrary everywhere.
+-/
+import Batchie.Lemmas.EncodeAccept
+
+namespace Batchie.Props.C01
+open Batchie.Screen Batchie.Proto
+
+/-! ### the renumbering `index - is_control.cumsum()` -/
+
+/-- **Renumbering lemma.** For a duplicate-free table `u` and any control predicate `c`, the code's
+    `new_index k = k - |{l ≤ k : c u_l}|` (inclusive cumulative sum), overwritten with `-1` on control rows, is
+    `-1` on control rows and otherwise the position of `u_k` in the table with the control rows removed.
+    (An exclusive cumsum, or `<` for `≤` in the control test, makes this false at the first control row.) -/
+theorem C01_cumsum_is_filter_index {α : Type} [BEq α] [LawfulBEq α] (c : α → Bool) (u : List α) (hnd : u.Nodup)
+    (k : Nat) (hk : k < u.length) :
+    (renumber (u.map c))[k]'(by simpa using hk) =
+      if c u[k] then (-1 : Int) else (((u.filter (fun x => !c x)).idxOf u[k] : Nat) : Int) := by
+  have h := numberFrom_getElem 0 (u.map c) k (by simpa using hk)
+  simp only [renumber_eq_numberFrom]
+  rw [h]
+  simp only [List.getElem_map, count_false_take_map]
+  by_cases hc : c u[k] = true
+  · simp [hc]
+  · simp only [hc]
+    rw [idxOf_filter_eq_countP (fun x => !c x) u hnd k hk (by simpa using hc)]
+    simp
+
+/-- the same, as a recursion-free description of the whole id column -/
+theorem C01_renumber_spec (flags : List Bool) (k : Nat) (hk : k < flags.length) :
+    (renumber flags)[k]'(by simpa using hk) = if flags[k] then (-1 : Int) else (((flags.take k).count false : Nat) : Int) := by
+  simp only [renumber_eq_numberFrom]
+  rw [numberFrom_getElem 0 flags k hk]; simp
+
+/-! ### the fresh treatment table -/
+
+/-- keys of the fresh table: exactly the distinct (name, dose) pairs of the data, each once, sorted by (name, dose) -/
+theorem C01_fresh_keys_nodup_sorted (ctrl : Name) (xs : List (Name × Dose)) :
+    let keys := (freshTMap ctrl xs).map (fun e => (e.1, e.2.1))
+    keys.Nodup ∧ keys.Pairwise (fun a b => keyLe a b = true ∧ a ≠ b) ∧ (∀ k, k ∈ keys ↔ k ∈ xs) := by
+  have hk : (freshTMap ctrl xs).map (fun e => (e.1, e.2.1)) = sortedKeys xs := freshTMap_keys ctrl xs
+  simp only [hk]
+  exact ⟨sortedKeys_nodup xs, (sortedKeys_sorted xs).and (sortedKeys_nodup xs), mem_sortedKeys xs⟩
+
+/-- in the fresh table an entry carries the control sentinel iff its name is the control name or its dose is not positive -/
+theorem C01_control_iff_table (ctrl : Name) (xs : List (Name × Dose)) (e : Name × Dose × Int) (he : e ∈ freshTMap ctrl xs) :
+    e.2.2 = -1 ↔ (e.1 = ctrl ∨ e.2.1 ≤ 0) := by
+  rw [freshTable_control_iff ctrl (sortedKeys xs) e (by rw [← freshTMap_eq_freshTable]; exact he)]
+  simp only [isControl, Bool.or_eq_true, decide_eq_true_eq, beq_iff_eq]
+  exact Or.comm
+
+/-- non-control ids of the fresh table, in table order, are exactly `0, 1, …, m-1` (no gap, no repeat, ascending in the
+    sorted key order), where `m` is the number of distinct non-control (name, dose) pairs -/
+theorem C01_treat_dense (ctrl : Name) (xs : List (Name × Dose)) :
+    ((freshTMap ctrl xs).map (·.2.2)).filter (· != -1) =
+      (List.range (nNonControl ctrl xs)).map (fun (i : Nat) => (i : Int)) := by
+  have h := freshTable_noncontrol_ids ctrl (sortedKeys xs)
+  rw [← freshTMap_eq_freshTable] at h
+  rw [nNonControl, ← h, List.filter_map]
+  congr 1
+  apply List.filter_congr
+  intro e he
+  have := freshTable_control_iff ctrl (sortedKeys xs) e (by rw [← freshTMap_eq_freshTable]; exact he)
+  simp only [Function.comp, tKey]
+  cases hc : isControl ctrl (e.1, e.2.1)
+  · have : e.2.2 ≠ -1 := fun h => by rw [this.mp h] at hc; cases hc
+    simp [this]
+  · simp [this.mpr hc]
+
+/-- …and that `m` is `ExperimentSpace.n_unique_treatments` -/
+theorem C01_treat_count (ctrl : Name) (xs : List (Name × Dose)) :
+    nUniqueTreatments (freshTMap ctrl xs) = nNonControl ctrl xs := nUniqueTreatments_freshTMap ctrl xs
+
+/-- equal non-control ids ⇒ equal (name, dose); together with `C01_fresh_keys_nodup_sorted` (equal keys ⇒ same entry): iff -/
+theorem C01_treat_inj (ctrl : Name) (xs : List (Name × Dose)) (e₁ e₂ : Name × Dose × Int)
+    (h₁ : e₁ ∈ freshTMap ctrl xs) (h₂ : e₂ ∈ freshTMap ctrl xs) (hnc : e₁.2.2 ≠ -1) :
+    e₁.2.2 = e₂.2.2 ↔ (e₁.1 = e₂.1 ∧ e₁.2.1 = e₂.2.1) := by
+  rw [freshTMap_eq_freshTable] at h₁ h₂
+  constructor
+  · intro hid
+    have := freshTable_inj ctrl _ e₁ e₂ h₁ h₂ hid hnc
+    rw [this]; exact ⟨rfl, rfl⟩
+  · rintro ⟨hn, hd⟩
+    have hkeys : ((freshTable ctrl (sortedKeys xs)).map tKey).Nodup := by
+      rw [freshTable_keys]; exact sortedKeys_nodup xs
+    have := inj_of_nodup_map tKey _ hkeys e₁ e₂ h₁ h₂ (Prod.ext hn hd)
+    rw [this]
+
+/-! ### the fresh sample / plate table -/
+
+/-- sample (and plate) names of the fresh table: the distinct names, each once, sorted; ids are `0, 1, …, n-1` in that order -/
+theorem C01_sample_dense (xs : List Name) :
+    let names := (freshSMap xs).map (·.1)
+    names.Nodup ∧ names.Pairwise (fun a b => a < b) ∧ (∀ k, k ∈ names ↔ k ∈ xs) ∧
+      (freshSMap xs).map (·.2) = (List.range names.length).map (fun (i : Nat) => (i : Int)) := by
+  simp only [freshSMap_names, freshSMap_ids]
+  refine ⟨sortedNames_nodup xs, ?_, mem_sortedNames xs, trivial⟩
+  have := (sortedNames_sorted xs).and (sortedNames_nodup xs)
+  refine this.imp ?_
+  intro a b ⟨hle, hne⟩
+  simp only [nameLe, decide_eq_true_eq] at hle
+  rcases name_lt_trichotomy a b with h | h | h
+  · exact h
+  · exact absurd h hne
+  · exact absurd h hle
+
+/-- equal sample ids iff equal names -/
+theorem C01_sample_inj (xs : List Name) (e₁ e₂ : Name × Int) (h₁ : e₁ ∈ freshSMap xs) (h₂ : e₂ ∈ freshSMap xs) :
+    e₁.2 = e₂.2 ↔ e₁.1 = e₂.1 := by
+  have hids : ((freshSMap xs).map (·.2)).Nodup := by
+    rw [freshSMap_ids, List.Nodup, List.pairwise_map]
+    exact List.nodup_range.imp (fun h h' => h (Int.ofNat_inj.mp h'))
+  have hnames : ((freshSMap xs).map (·.1)).Nodup := by rw [freshSMap_names]; exact sortedNames_nodup xs
+  constructor
+  · intro h; rw [inj_of_nodup_map _ _ hids e₁ e₂ h₁ h₂ h]
+  · intro h; rw [inj_of_nodup_map _ _ hnames e₁ e₂ h₁ h₂ h]
+
+/-! ### the encoders never fail on fresh tables -/
+
+/-- the fresh encoding never fails: every input key is found exactly once, so the result has one id per input,
+    and that id is the table's id of the input's key -/
+theorem C01_encode_total_fresh (ctrl : Name) (xs : List (Name × Dose)) :
+    ∃ ids, encodeTreatments ctrl xs none = .ok (ids, freshTMap ctrl xs) ∧ ids.length = xs.length ∧
+      (∀ k ∈ xs, ∃ i, tLookup (freshTMap ctrl xs) k = [i]) ∧
+      ∀ j (hj : j < xs.length) (hj' : j < ids.length), (xs[j].1, xs[j].2, ids[j]) ∈ freshTMap ctrl xs := by
+  have henc := encodeTreatments_fresh ctrl xs
+  refine ⟨_, henc, by simp, ?_, ?_⟩
+  · intro k hk
+    have hmem : k ∈ (freshTMap ctrl xs).map tKey := by rw [freshTMap_keys]; exact (mem_sortedKeys xs k).mpr hk
+    obtain ⟨e, he, rfl⟩ := List.mem_map.mp hmem
+    exact ⟨e.2.2, tLookup_of_mem _ (by rw [freshTMap_keys]; exact sortedKeys_nodup xs) (tKey e) e.2.2 he⟩
+  · intro j hj hj'
+    exact encodeTreatments_decode ctrl xs none _ _ henc (by simp) j hj
+
+theorem C01_encode1d_total_fresh (xs : List Name) :
+    ∃ ids, encode1d xs none = .ok (ids, freshSMap xs) ∧ ids.length = xs.length ∧
+      ∀ j (hj : j < xs.length) (hj' : j < ids.length), (xs[j], ids[j]) ∈ freshSMap xs := by
+  have henc := encode1d_fresh xs
+  refine ⟨_, henc, by simp, ?_⟩
+  intro j hj hj'
+  exact encode1d_decode xs none _ _ henc (by simp) j hj
+
+/-! ### screens: `Screen.mk?` is the model of `Screen.__init__` -/
+
+/-- **Decode (treatments).** For every successfully built screen — with or without supplied mappings — the id table has
+    the shape of the name table, and for every cell `(i, c)` the triple (name, dose, id) is a row of the screen's
+    treatment mapping. -/
+theorem C01_decode (r : Raw) (s : Screen) (h : mk? r = .ok s) (i c : Nat) (hi : i < s.tnames.length) (hc : c < s.arity) :
+    ∃ (h1 : c < s.tnames[i].length) (h2 : i < s.tdoses.length) (h3 : c < s.tdoses[i].length)
+      (h4 : i < s.tids.length) (h5 : c < s.tids[i].length),
+      (s.tnames[i][c], s.tdoses[i][c], s.tids[i][c]) ∈ s.tmap := by
+  have m := (mk?_ok_iff r s).mp h
+  obtain ⟨sctrl, sarity, stnames, stdoses, ssnames, spnames, sobs, smask, stids, ssids, spids, stmap, ssmap, spmap⟩ := s
+  have e1 := m.tnames_eq; have e2 := m.tdoses_eq; have e3 := m.arity_eq
+  simp only at e1 e2 e3 hi hc ⊢
+  subst e1 e2 e3
+  exact m.cell_decode i c hi hc
+
+/-- **Decode (samples, plates).** -/
+theorem C01_decode_samples (r : Raw) (s : Screen) (h : mk? r = .ok s) (i : Nat) (hi : i < s.snames.length) :
+    ∃ (h1 : i < s.sids.length), (s.snames[i], s.sids[i]) ∈ s.smap := by
+  have m := (mk?_ok_iff r s).mp h
+  obtain ⟨sctrl, sarity, stnames, stdoses, ssnames, spnames, sobs, smask, stids, ssids, spids, stmap, ssmap, spmap⟩ := s
+  have e1 := m.snames_eq
+  simp only at e1 hi ⊢
+  subst e1
+  exact m.sample_decode i hi
+
+theorem C01_decode_plates (r : Raw) (s : Screen) (h : mk? r = .ok s) (i : Nat) (hi : i < s.pnames.length) :
+    ∃ (h1 : i < s.pids.length), (s.pnames[i], s.pids[i]) ∈ s.pmap := by
+  have m := (mk?_ok_iff r s).mp h
+  obtain ⟨sctrl, sarity, stnames, stdoses, ssnames, spnames, sobs, smask, stids, ssids, spids, stmap, ssmap, spmap⟩ := s
+  have e1 := m.pnames_eq
+  simp only at e1 hi ⊢
+  subst e1
+  exact m.plate_decode i hi
+
+/-- all per-row arrays of a built screen have the same number of rows -/
+theorem C01_shape (r : Raw) (s : Screen) (h : mk? r = .ok s) :
+    s.tdoses.length = s.tnames.length ∧ s.snames.length = s.tnames.length ∧ s.pnames.length = s.tnames.length ∧
+    s.tids.length = s.tnames.length ∧ s.sids.length = s.tnames.length ∧ s.pids.length = s.tnames.length ∧
+    s.obs.length = s.tnames.length ∧ s.mask.length = s.tnames.length ∧
+    (∀ row ∈ s.tnames, row.length = s.arity) ∧ (∀ row ∈ s.tdoses, row.length = s.arity) ∧ (∀ row ∈ s.tids, row.length = s.arity) := by
+  have m := (mk?_ok_iff r s).mp h
+  have hp : s.pids.length = r.tnames.length := by rw [m.pmap_eq.2, List.length_map, m.len_pnames]
+  have ho : s.obs.length = r.tnames.length := by
+    rw [m.obs_eq]
+    have := m.len_obs
+    unfold obsLenBad at this; unfold obsOf
+    cases hobs : r.obs with
+    | none => simp
+    | some o => rw [hobs] at this; simpa using this
+  rw [m.tnames_eq, m.tdoses_eq, m.snames_eq, m.pnames_eq, m.arity_eq, m.mask_eq]
+  exact ⟨m.len_tdoses, m.len_snames, m.len_pnames, m.tids_shape.1, m.len_sids, hp, ho, m.len_mask,
+    m.arity_tnames, m.arity_tdoses, m.tids_shape.2⟩
+
+/-- **Control sentinel.** In a screen built without a supplied treatment mapping, a cell's id is `-1` exactly when
+    its name is the control name or its dose is not positive. -/
+theorem C01_control_iff (r : Raw) (s : Screen) (h : mk? r = .ok s) (hfresh : r.tmap = none)
+    (i c : Nat) (hi : i < s.tnames.length) (hc : c < s.arity) :
+    ∃ (h1 : c < s.tnames[i].length) (h2 : i < s.tdoses.length) (h3 : c < s.tdoses[i].length)
+      (h4 : i < s.tids.length) (h5 : c < s.tids[i].length),
+      (s.tids[i][c] = -1 ↔ (s.tnames[i][c] = s.ctrl ∨ s.tdoses[i][c] ≤ 0)) := by
+  obtain ⟨h1, h2, h3, h4, h5, hmem⟩ := C01_decode r s h i c hi hc
+  refine ⟨h1, h2, h3, h4, h5, ?_⟩
+  have m := (mk?_ok_iff r s).mp h
+  have ht := m.tmap_eq
+  rw [hfresh] at ht
+  simp only at ht
+  rw [ht] at hmem
+  rw [m.ctrl_eq]
+  exact C01_control_iff_table r.ctrl (allKeys r) _ hmem
+
+/-- **Supplied mappings are followed verbatim**; absent ones are the fresh tables of the screen's own data; the plate
+    mapping is always fresh. -/
+theorem C01_supplied_verbatim (r : Raw) (s : Screen) (h : mk? r = .ok s) :
+    (∀ m, r.tmap = some m → s.tmap = m) ∧ (∀ m, r.smap = some m → s.smap = m) ∧
+    (r.tmap = none → s.tmap = freshTMap r.ctrl (allKeys r)) ∧ (r.smap = none → s.smap = freshSMap r.snames) ∧
+    s.pmap = freshSMap r.pnames := by
+  have m := (mk?_ok_iff r s).mp h
+  refine ⟨?_, ?_, ?_, ?_, m.pmap_eq.1⟩
+  · intro tm htm; have := m.tmap_eq; rw [htm] at this; exact this
+  · intro sm hsm; have := m.smap_eq; rw [hsm] at this; exact this
+  · intro htm; have := m.tmap_eq; rw [htm] at this; exact this
+  · intro hsm; have := m.smap_eq; rw [hsm] at this; exact this
+
+/-- an id array is `{-1?} ∪ {0, …, n-1}` -/
+def DenseIds (ids : List Int) : Prop :=
+  ∃ n : Nat, ∀ x : Int, x ∈ ids ↔ ((x = -1 ∧ (-1 : Int) ∈ ids) ∨ (0 ≤ x ∧ x < (n : Int)))
+
+/-- what an accepted screen guarantees about supplied mappings: ids dense, every cell key / sample name covered -/
+theorem C01_supplied_accepted (r : Raw) (s : Screen) (h : mk? r = .ok s) :
+    (∀ m, r.tmap = some m → DenseIds (m.map (·.2.2)) ∧ ∀ k ∈ allKeys r, k ∈ m.map tKey) ∧
+    (∀ m, r.smap = some m → DenseIds (m.map (·.2)) ∧ ∀ k ∈ r.snames, k ∈ m.map (·.1)) := by
+  have m := (mk?_ok_iff r s).mp h
+  constructor
+  · intro tm htm
+    constructor
+    · have := m.tmap_dense
+      unfold tmapBad at this; rw [htm] at this
+      exact isZeroIndexed_sound _ (by simpa using this)
+    · have hc := m.covered
+      have ht := m.tmap_eq
+      rw [htm] at ht; simp only at ht
+      rw [ht] at hc; exact hc
+  · intro sm hsm
+    constructor
+    · have := m.smap_dense
+      unfold smapBad at this; rw [hsm] at this
+      exact isZeroIndexed_sound _ (by simpa using this)
+    · have hc := m.samples_covered
+      have ht := m.smap_eq
+      rw [hsm] at ht; simp only at ht
+      rw [ht] at hc; exact hc
+
+/-- **Supplied mappings are rejected** when their ids are not `{-1?} ∪ 0..n-1` or when they miss a cell key /
+    sample name of the data: `Screen.mk?` is an error. -/
+theorem C01_supplied_rejected (r : Raw) :
+    (∀ m, r.tmap = some m → (¬ DenseIds (m.map (·.2.2)) ∨ ∃ k ∈ allKeys r, k ∉ m.map tKey) → ∃ e, mk? r = .error e) ∧
+    (∀ m, r.smap = some m → (¬ DenseIds (m.map (·.2)) ∨ ∃ k ∈ r.snames, k ∉ m.map (·.1)) → ∃ e, mk? r = .error e) := by
+  constructor
+  · intro tm htm hbad
+    cases hres : mk? r with
+    | error e => exact ⟨e, rfl⟩
+    | ok s =>
+      exfalso
+      obtain ⟨hd, hcov⟩ := (C01_supplied_accepted r s hres).1 tm htm
+      rcases hbad with hb | ⟨k, hk, hk'⟩
+      · exact hb hd
+      · exact hk' (hcov k hk)
+  · intro sm hsm hbad
+    cases hres : mk? r with
+    | error e => exact ⟨e, rfl⟩
+    | ok s =>
+      exfalso
+      obtain ⟨hd, hcov⟩ := (C01_supplied_accepted r s hres).2 sm hsm
+      rcases hbad with hb | ⟨k, hk, hk'⟩
+      · exact hb hd
+      · exact hk' (hcov k hk)
+
+/-- every cell of the data is one of the keys handed to the encoder (so "not covering the data" in
+    `C01_supplied_rejected` includes every cell of the screen) -/
+theorem C01_cell_is_key (r : Raw) (hd : r.tdoses.length = r.tnames.length)
+    (han : ∀ row ∈ r.tnames, row.length = r.arity) (had : ∀ row ∈ r.tdoses, row.length = r.arity)
+    (i c : Nat) (hi : i < r.tnames.length) (hc : c < r.arity) :
+    ((r.tnames[i])[c]'(by rw [han _ (List.getElem_mem hi)]; exact hc),
+      (r.tdoses[i]'(hd ▸ hi))[c]'(by rw [had _ (List.getElem_mem (hd ▸ hi))]; exact hc)) ∈ allKeys r :=
+  List.mem_of_getElem? (allKeys_getElem? r hd han had i c hi hc)
+
+/-- a mapping batchie itself produced (for any data, e.g. a superset of the screen's) -/
+def IsBatchieTMap (M : TMap) : Prop := ∃ ctrl data, M = freshTMap ctrl data
+def IsBatchieSMap (M : SMap) : Prop := ∃ data, M = freshSMap data
+
+/-- **Experiment-space sizes strictly bound every id.** For fresh encodings unconditionally; for supplied mappings
+    provided the mapping is one batchie produced (for whatever data, typically a superset). -/
+theorem C01_space_bounds (r : Raw) (s : Screen) (h : mk? r = .ok s)
+    (ht : ∀ m, r.tmap = some m → IsBatchieTMap m) (hs : ∀ m, r.smap = some m → IsBatchieSMap m) :
+    (∀ row ∈ s.tids, ∀ id ∈ row, -1 ≤ id ∧ id < (nUniqueTreatments s.tmap : Int)) ∧
+    (∀ id ∈ s.sids, 0 ≤ id ∧ id < (nUniqueSamples s.smap : Int)) := by
+  have m := (mk?_ok_iff r s).mp h
+  have htm : IsBatchieTMap s.tmap := by
+    rw [m.tmap_eq]
+    cases htmap : r.tmap with
+    | none => exact ⟨r.ctrl, allKeys r, rfl⟩
+    | some tm => exact ht tm htmap
+  have hsm : IsBatchieSMap s.smap := by
+    rw [m.smap_eq]
+    cases hsmap : r.smap with
+    | none => exact ⟨r.snames, rfl⟩
+    | some sm => exact hs sm hsmap
+  constructor
+  · intro row hrow id hid
+    obtain ⟨e, he, rfl⟩ := m.tid_mem row hrow id hid
+    obtain ⟨ctrl, data, hM⟩ := htm
+    rw [hM] at he ⊢
+    exact freshTMap_id_lt ctrl data e he
+  · intro id hid
+    obtain ⟨e, he, rfl⟩ := m.sid_mem id hid
+    obtain ⟨data, hM⟩ := hsm
+    rw [hM] at he ⊢
+    exact freshSMap_id_lt data e he
+
+theorem C01_space_bounds_fresh (r : Raw) (s : Screen) (h : mk? r = .ok s) (ht : r.tmap = none) (hs : r.smap = none) :
+    (∀ row ∈ s.tids, ∀ id ∈ row, -1 ≤ id ∧ id < (nUniqueTreatments s.tmap : Int)) ∧
+    (∀ id ∈ s.sids, 0 ≤ id ∧ id < (nUniqueSamples s.smap : Int)) :=
+  C01_space_bounds r s h (fun m hm => by rw [ht] at hm; cases hm) (fun m hm => by rw [hs] at hm; cases hm)
+
+/-! ### construction succeeds where it should -/
+
+/-- without supplied mappings every well-shaped input (equal lengths, rows of length `arity`, plate-uniform mask)
+    is constructed successfully — the fresh encoders never fail — and the result is `mkFresh r` -/
+theorem C01_fresh_accepted (r : Raw) (w : WellShaped r) (ht : r.tmap = none) (hs : r.smap = none) :
+    mk? r = .ok (mkFresh r) := mk?_fresh r w ht hs
+
+/-- mappings that batchie produced for a superset of the data (under any control name) are accepted and followed -/
+theorem C01_superset_accepted (r : Raw) (w : WellShaped r) (ctrl' : Name) (tdata : List (Name × Dose)) (sdata : List Name)
+    (ht : r.tmap = some (freshTMap ctrl' tdata)) (hs : r.smap = some (freshSMap sdata))
+    (hsubT : ∀ k ∈ allKeys r, k ∈ tdata) (hsubS : ∀ k ∈ r.snames, k ∈ sdata) :
+    ∃ s, mk? r = .ok s ∧ s.tmap = freshTMap ctrl' tdata ∧ s.smap = freshSMap sdata :=
+  ⟨_, mk?_superset r w ctrl' tdata sdata ht hs hsubT hsubS, rfl, rfl⟩
+
+/-! ### non-vacuity: the hypotheses above are satisfiable by non-trivial screens -/
+
+/-- 4 experiments of arity 2; control by name (`[100]`) and by dose (`0`, `-3`) in the same screen; a repeated row -/
+def exRaw : Raw :=
+  { ctrl := [100], arity := 2,
+    tnames := [[[1], [2]], [[100], [1]], [[2], [1]], [[1], [2]]],
+    tdoses := [[1, 0], [1, 2], [(1 : Rat) / 2, 1], [1, -3]],
+    snames := [[7], [5], [7], [7]], pnames := [[1], [1], [2], [3]],
+    obs := some [11, 12, 13, 14], mask := some [true, true, false, true], tmap := none, smap := none }
+
+theorem exRaw_wellShaped : WellShaped exRaw :=
+  { len_tdoses := by decide, len_snames := by decide, len_pnames := by decide, arity_tnames := by decide,
+    arity_tdoses := by decide, mask_needs_obs := by decide, len_obs := by decide, len_mask := by decide,
+    uniform := by decide }
+
+/-- hypotheses of `C01_decode`, `C01_control_iff`, `C01_space_bounds_fresh`, `C01_supplied_verbatim` hold for `exRaw` -/
+example : ∃ s, mk? exRaw = .ok s ∧ exRaw.tmap = none ∧ s.tnames.length = 4 ∧ s.arity = 2 :=
+  ⟨_, C01_fresh_accepted exRaw exRaw_wellShaped rfl rfl, rfl, rfl, rfl⟩
+
+/-- the same rows with mappings batchie built for a strict superset (one more treatment, one more sample) -/
+def exRawSup : Raw :=
+  { exRaw with tmap := some (freshTMap [100] (allKeys exRaw ++ [([9], 4)])), smap := some (freshSMap (exRaw.snames ++ [[3]])) }
+
+/-- hypotheses of `C01_space_bounds` / `C01_superset_accepted` hold for a strict superset mapping -/
+example : ∃ s, mk? exRawSup = .ok s ∧ (∀ m, exRawSup.tmap = some m → IsBatchieTMap m) ∧ (∀ m, exRawSup.smap = some m → IsBatchieSMap m) := by
+  obtain ⟨s, hs, _, _⟩ := C01_superset_accepted exRawSup
+    { len_tdoses := by decide, len_snames := by decide, len_pnames := by decide, arity_tnames := by decide,
+      arity_tdoses := by decide, mask_needs_obs := by decide, len_obs := by decide, len_mask := by decide,
+      uniform := by decide }
+    [100] (allKeys exRaw ++ [([9], 4)]) (exRaw.snames ++ [[3]]) rfl rfl
+    (fun k hk => List.mem_append_left _ hk) (fun k hk => List.mem_append_left _ hk)
+  refine ⟨s, hs, ?_, ?_⟩
+  · intro m hm; injection hm with hm; exact ⟨_, _, hm.symm⟩
+  · intro m hm; injection hm with hm; exact ⟨_, hm.symm⟩
+
+/-- hypotheses of `C01_supplied_rejected`: a mapping whose ids skip `1`, resp. one that misses a sample name -/
+example : ¬ DenseIds [0, 2, -1] := by
+  rintro ⟨n, h⟩
+  have h2 := (h 2).mp (by decide)
+  have h1 := (h 1).mpr (Or.inr (by omega))
+  revert h1; decide
+example : ∃ k ∈ exRaw.snames, k ∉ ([([7], 0)] : SMap).map (·.1) := ⟨[5], by decide, by decide⟩
+
+/-- hypothesis of `C01_cumsum_is_filter_index`: a duplicate-free table with control rows at the start, middle and end -/
+example : ([1, 5, 2, 7, 9] : List Nat).Nodup ∧
+    renumber ([1, 5, 2, 7, 9].map (fun x => decide (x % 2 = 1))) = [-1, -1, 0, -1, -1] := by decide
+example : renumber [false, true, false, false, true, false] = [0, -1, 1, 2, -1, 3] := by decide
+
+end Batchie.Props.C01
